@@ -140,8 +140,11 @@ def C12_3(ctx, facts):
          any(r.kind == "call" and r.site.is_("http::Uri::host", "http::uri::Uri::host") for r in call.roots(lab.place)))
     for c in news:
         rr = call.roots(c.args[2])
-        ctx.check(any(r.kind == "call" and r.site.is_("http::Uri::host", "http::uri::Uri::host") for r in rr) and any(r.kind == "arg" and r.desc.startswith("req") for r in rr),
-                  "TlsTransportWrapper::call|domain-is-uri-host", "the TLS domain derives from the request URI's host", "domain roots %s" % sorted(map(repr, sig(rr))), c.where())
+        from_host = any(r.kind == "call" and r.site.is_("http::Uri::host", "http::uri::Uri::host") for r in rr)
+        other_parts = [r for r in rr if r.kind == "arg" and not r.desc.startswith("req.uri")] + \
+                      [r for r in rr if r.kind == "call" and r.site.matches(r"HeaderMap|Extensions|Request.*::(headers|extensions|method|version)$")]
+        ctx.check(from_host and not other_parts, "TlsTransportWrapper::call|domain-is-uri-host", "the TLS domain derives from the request URI's host and from nothing else of the request",
+                  "the TLS domain (SNI / certificate name) derives from %s" % sorted(map(repr, other_parts or sig(rr)))[:6], c.where())
     for c in conns:
         ok, w = call.guarded(c.bb, host_some)
         ctx.check(ok, "TlsTransportWrapper::call|no-host-no-connect", "without a host no connection is attempted (NoDomain is returned first)",
